@@ -14,6 +14,7 @@ import (
 	"os/exec"
 	"sort"
 	"strings"
+	"syscall"
 	"time"
 )
 
@@ -44,10 +45,10 @@ func (r *Rand) Intn(n int) int {
 	}
 	return int(r.U64() % uint64(n))
 }
-func (r *Rand) Bool() bool          { return r.U64()&1 == 1 }
-func (r *Rand) Chance(p int) bool   { return r.Intn(100) < p }
+func (r *Rand) Bool() bool           { return r.U64()&1 == 1 }
+func (r *Rand) Chance(p int) bool    { return r.Intn(100) < p }
 func (r *Rand) Range(lo, hi int) int { return lo + r.Intn(hi-lo+1) }
-func Pick[T any](r *Rand, xs []T) T { return xs[r.Intn(len(xs))] }
+func Pick[T any](r *Rand, xs []T) T  { return xs[r.Intn(len(xs))] }
 
 // ---------------------------------------------------------------- model client
 
@@ -162,27 +163,27 @@ type Violation struct {
 }
 
 type Result struct {
-	Property      string         `json:"property"`
-	Tier          string         `json:"tier"`
-	Seed          uint64         `json:"seed"`
-	Evaluations   int            `json:"evaluations"`
-	Distinct      int            `json:"distinct_nontrivial"`
-	Rule          string         `json:"rule"`
-	Samples       []any          `json:"samples"`
-	Exhaustive    bool           `json:"exhaustive"`
-	ExhaustiveWhat string        `json:"exhaustive_what,omitempty"`
-	Histogram     map[string]int `json:"histogram"`
-	ModelLines    int            `json:"model_lines"`
-	ModelUsed     bool           `json:"model_used"`
-	Traces        int            `json:"traces_validated_against_impl"`
-	Mismatches    []Mismatch     `json:"mismatches"`
-	MismatchCount int            `json:"mismatch_count"`
-	Violations    []Violation    `json:"violations"`
-	ViolationCount int           `json:"violation_count"`
+	Property       string            `json:"property"`
+	Tier           string            `json:"tier"`
+	Seed           uint64            `json:"seed"`
+	Evaluations    int               `json:"evaluations"`
+	Distinct       int               `json:"distinct_nontrivial"`
+	Rule           string            `json:"rule"`
+	Samples        []any             `json:"samples"`
+	Exhaustive     bool              `json:"exhaustive"`
+	ExhaustiveWhat string            `json:"exhaustive_what,omitempty"`
+	Histogram      map[string]int    `json:"histogram"`
+	ModelLines     int               `json:"model_lines"`
+	ModelUsed      bool              `json:"model_used"`
+	Traces         int               `json:"traces_validated_against_impl"`
+	Mismatches     []Mismatch        `json:"mismatches"`
+	MismatchCount  int               `json:"mismatch_count"`
+	Violations     []Violation       `json:"violations"`
+	ViolationCount int               `json:"violation_count"`
 	KnownConfirmed map[string]string `json:"known_confirmed"` // sig -> what reproduced
-	KnownGone     []string       `json:"known_not_reproduced"`
-	Notes         []string       `json:"notes"`
-	WallS         float64        `json:"wall_s"`
+	KnownGone      []string          `json:"known_not_reproduced"`
+	Notes          []string          `json:"notes"`
+	WallS          float64           `json:"wall_s"`
 }
 
 // Ctx is handed to a property runner.
@@ -418,4 +419,21 @@ func Self() string {
 		return os.Args[0]
 	}
 	return p
+}
+
+// ProtocolStdout is for child processes that answer their parent over stdout while running origami
+// code in-process: the interpreter prints some things straight to os.Stdout (var_dump, "Deprecated:
+// …" notices, output written after a panic), and a stray line would be read as a protocol answer and
+// shift every later one. It returns a private duplicate of fd 1 for the protocol and points fd 1 and
+// os.Stdout at /dev/null. Call it first thing in the child.
+func ProtocolStdout() *os.File {
+	fd, err := syscall.Dup(1)
+	if err != nil {
+		return os.Stdout
+	}
+	if devnull, err := os.OpenFile(os.DevNull, os.O_WRONLY, 0); err == nil {
+		syscall.Dup2(int(devnull.Fd()), 1)
+		os.Stdout = devnull
+	}
+	return os.NewFile(uintptr(fd), "protocol")
 }
